@@ -68,5 +68,26 @@ Definition ops_C11 : list opdef := [
        | [keys; from; h; dd] => match as_zss keys, as_z from, as_z h, as_bool dd with
            | Some keys, Some from, Some h, Some dd => vzs (spec_PathsOf keys from h dd)
            | _, _, _, _ => VBad end
+       | _ => VBad end) |};
+  (* two calls; both results are rendered after the second call (a result must not
+     alias a buffer that a later call reuses) *)
+  {| op_name := "bmtree.PathsOf/held";
+     op_run := fun a => match a with
+       | [keys1; keys2; from; h; dd] =>
+           match as_zss keys1, as_zss keys2, as_z from, as_z h, as_bool dd with
+           | Some keys1, Some keys2, Some from, Some h, Some dd =>
+               if c11_dom from h && forallb bytes_okb keys1 && forallb bytes_okb keys2 then
+                 match PathsOf keys1 from h dd, PathsOf keys2 from h dd with
+                 | Some p1, Some p2 => VL [vzs p1; vzs p2]
+                 | _, _ => VPanic end
+               else VBad
+           | _, _, _, _, _ => VBad end
+       | _ => VBad end;
+     op_spec := fun_spec (fun a => match a with
+       | [keys1; keys2; from; h; dd] =>
+           match as_zss keys1, as_zss keys2, as_z from, as_z h, as_bool dd with
+           | Some keys1, Some keys2, Some from, Some h, Some dd =>
+               VL [vzs (spec_PathsOf keys1 from h dd); vzs (spec_PathsOf keys2 from h dd)]
+           | _, _, _, _, _ => VBad end
        | _ => VBad end) |}
 ].
